@@ -1,6 +1,194 @@
+(* C03 — Dataset containers stay coherent under any history of operations.
+   This file contains ONLY the property theorems (closed by `exact`), their assumption reports
+   and non-vacuity examples.
+
+   Reading guide (model/C03_Model.v):
+     state                 append-only heaps of ndarray objects (shape, row-major data, owner of the
+                           buffer), calibration arrays (list Q) and unit lists, plus the table of live
+                           Dataset objects (four references + class tag)
+     op / step / exec      the public operations (from_array of every class, copy, the four setters,
+                           pad, crop, bin, fourier_resample with their in-place flag, __getitem__);
+                           step returns Ok state | Err e; exec leaves the state unchanged on Err
+     run FR divf s ops     = fold_left exec ops s.  FR (Fourier resampling kernel) and divf (division
+                           of the "mean" reducer) are ARBITRARY functions: every theorem holds for all
+     observe s t           (class, shape, data, origin, sampling, units) of live dataset t
+     np_index sh data idx  SPECIFICATION: NumPy's own indexing (integers, slices with negative
+                           bounds/steps, Ellipsis, integer lists incl. broadcasting and the rule that
+                           the merged index-array axis goes first when the advanced indices are
+                           separated); np_axes = which source axis each result axis runs along
+     getitem               the CODE's bookkeeping (code_expand, code_kept_axes, scale_steps, registry),
+                           as repaired by fixes/C03-advanced-index-axis-order.diff
+   "Every reachable state" = run FR divf empty_state ops for an arbitrary list ops. *)
 From Coq Require Import QArith String.
 From QV.lib Require Import Prelude C03_Slice.
 From QV.model Require Import C03_Model.
 From QV.proof Require Import C03_Proofs.
-Theorem C03_stub : True. Proof. exact stub. Qed.
-Print Assumptions C03_stub.
+From Coq Require Import List.
+Import ListNotations.
+Local Close Scope Q_scope.
+Local Open Scope list_scope.
+
+(* Clause 1.  After ANY finite sequence of operations (any arguments, malformed ones and failing
+   calls included), every live dataset has exactly one origin, sampling and units entry per array
+   axis, and its class matches its dimensionality (Dataset2d <-> 2, Dataset3d <-> 3,
+   Dataset4d/4dstem <-> 4, Dataset: any). *)
+Theorem C03_coherent_reachable :
+  forall (FR : list Z -> list Z -> list nat -> list Z -> list Z) (divf : Z -> Z -> Z)
+         (ops : list op) (t : nat),
+    let s := run FR divf empty_state ops in
+    t < length (dss s) ->
+    let o := observe s t in
+    length (o_origin o) = length (o_shape o) /\ length (o_sampling o) = length (o_shape o) /\
+    length (o_units o) = length (o_shape o) /\ cls_ok (o_cls o) (length (o_shape o)).
+Proof. exact reach_coherent. Qed.
+Print Assumptions C03_coherent_reachable.
+
+(* Clause 2a.  Indexing any reachable dataset with any index expression (integers, slices, lists,
+   Ellipsis) that the call accepts returns a NEW dataset whose array is exactly the NumPy-indexed
+   array (shape and data). *)
+Theorem C03_getitem_data :
+  forall (FR : list Z -> list Z -> list nat -> list Z -> list Z) (divf : Z -> Z -> Z)
+         (ops : list op) (t : nat) (idx : list index) (s' : state),
+    let s := run FR divf empty_state ops in
+    t < length (dss s) -> getitem s t idx = Ok s' ->
+    exists v, np_index (o_shape (observe s t)) (o_flat (observe s t)) idx = Ok v /\
+      o_shape (observe s' (length (dss s))) = np_shape v /\
+      o_flat (observe s' (length (dss s))) = np_flat v.
+Proof. exact reach_getitem_data. Qed.
+Print Assumptions C03_getitem_data.
+
+(* Clause 2b.  ... and its axes carry the calibration of the source axes they run along, in the
+   order in which NumPy lays the result out (np_axes v: sliced axes in order; the single merged
+   index-array axis where the advanced indices stood, or first when they are separated by a slice
+   or an Ellipsis), with the sampling multiplied by the slice step (negative steps included).  The
+   merged index-array axis is labelled by the first list-indexed axis and keeps its sampling
+   (oax_step = 1).  The class is the source's when the dimensionality is unchanged, the registered
+   class of the new dimensionality otherwise. *)
+Theorem C03_getitem_axes :
+  forall (FR : list Z -> list Z -> list nat -> list Z -> list Z) (divf : Z -> Z -> Z)
+         (ops : list op) (t : nat) (idx : list index) (s' : state),
+    let s := run FR divf empty_state ops in
+    t < length (dss s) -> getitem s t idx = Ok s' ->
+    let src := observe s t in
+    let res := observe s' (length (dss s)) in
+    exists v, np_index (o_shape src) (o_flat src) idx = Ok v /\
+      length (dss s') = S (length (dss s)) /\
+      o_shape res = np_shape v /\ o_flat res = np_flat v /\
+      o_origin res = map (fun ax => nth (oax_src ax) (o_origin src) 0%Q) (np_axes v) /\
+      Forall2 Qeq (o_sampling res)
+              (map (fun ax => (nth (oax_src ax) (o_sampling src) 1 * inject_Z (oax_step ax))%Q) (np_axes v)) /\
+      o_units res = map (fun ax => nth (oax_src ax) (o_units src) ""%string) (np_axes v) /\
+      o_cls res = (if length (np_shape v) =? length (o_shape src) then o_cls src
+                   else registry (length (np_shape v))).
+Proof. exact reach_getitem. Qed.
+Print Assumptions C03_getitem_axes.
+
+(* the code's adjacency test and Ellipsis expansion are NumPy's, for every index expression *)
+Theorem C03_index_normalisation :
+  forall (idx : list index) (n : nat) (ex : list index),
+    code_separated idx = separated idx /\
+    (np_expand n idx = Ok ex -> code_expand n idx = ex).
+Proof.
+  exact (fun idx n ex => conj (separated_code idx)
+                              (fun H => proj1 (code_expand_np n idx ex H))).
+Qed.
+Print Assumptions C03_index_normalisation.
+
+(* Clause 3.  An operation that returns a new dataset (from_array, copy, indexing, and the
+   copying variants of pad/crop/bin/fourier_resample) leaves EVERY dataset that was alive before —
+   in particular its source — exactly as it was: the same objects, the same data and
+   calibration. *)
+Theorem C03_source_untouched :
+  forall (FR : list Z -> list Z -> list nat -> list Z -> list Z) (divf : Z -> Z -> Z)
+         (ops : list op) (o : op) (s' : state),
+    let s := run FR divf empty_state ops in
+    step FR divf s o = Ok s' -> returns_new o = true ->
+    length (dss s') = S (length (dss s)) /\
+    forall t, t < length (dss s) -> get_ds s' t = get_ds s t /\ observe s' t = observe s t.
+Proof. exact reach_source_untouched. Qed.
+Print Assumptions C03_source_untouched.
+
+(* ... an in-place operation or a setter changes its target only ... *)
+Theorem C03_others_untouched :
+  forall (FR : list Z -> list Z -> list nat -> list Z -> list Z) (divf : Z -> Z -> Z)
+         (ops : list op) (o : op) (s' : state) (t : nat),
+    let s := run FR divf empty_state ops in
+    step FR divf s o = Ok s' -> returns_new o = false -> op_target o = Some t ->
+    length (dss s') = length (dss s) /\
+    forall u, u < length (dss s) -> u <> t -> get_ds s' u = get_ds s u /\ observe s' u = observe s u.
+Proof. exact reach_others_untouched. Qed.
+Print Assumptions C03_others_untouched.
+
+(* ... and NO operation ever writes into an existing array buffer, calibration array or units
+   list (which is why views — indexing, crop — may safely share the source's buffer). *)
+Theorem C03_no_buffer_writes :
+  forall (FR : list Z -> list Z -> list nat -> list Z -> list Z) (divf : Z -> Z -> Z)
+         (ops : list op) (o : op) (s' : state),
+    let s := run FR divf empty_state ops in
+    step FR divf s o = Ok s' ->
+    (forall i, i < length (arrs s) -> get_arr s' i = get_arr s i) /\
+    (forall i, i < length (nums s) -> get_num s' i = get_num s i) /\
+    (forall i, i < length (strs s) -> get_str s' i = get_str s i).
+Proof. exact reach_no_buffer_writes. Qed.
+Print Assumptions C03_no_buffer_writes.
+
+(* Clause 4.  For every operation with a modify_in_place flag (pad, crop, bin, fourier_resample),
+   every argument and every reachable state: the two variants fail with the same error or both
+   succeed, and then the target of the in-place variant shows exactly what the dataset returned
+   by the copying variant shows (class, shape, data, origin, sampling, units). *)
+Theorem C03_inplace_eq_copy :
+  forall (FR : list Z -> list Z -> list nat -> list Z -> list Z) (divf : Z -> Z -> Z)
+         (ops : list op) (o : op) (t : nat),
+    let s := run FR divf empty_state ops in
+    has_flag o = true -> op_target o = Some t -> t < length (dss s) ->
+    match step FR divf s (with_flag o true), step FR divf s (with_flag o false) with
+    | Ok s1, Ok s2 => observe s1 t = observe s2 (length (dss s))
+    | Err e1, Err e2 => e1 = e2
+    | _, _ => False
+    end.
+Proof. exact reach_inplace_eq_copy. Qed.
+Print Assumptions C03_inplace_eq_copy.
+
+(* ------------------------------------------------------------------ non-vacuity *)
+Definition FR0 (_ _ : list Z) (_ : list nat) (fl : list Z) : list Z := fl.
+Definition ex_seed : op :=
+  OFromArray D3 [2; 3; 4] (map Z.of_nat (seq 0 24))
+             (Some (NList [1; 2; 3]%Q)) (Some (NList [1 # 2; 1 # 4; 2]%Q))
+             (Some (UList ["a"; "b"; "c"]%string)).
+Definition ex_state : state := run FR0 Z.div empty_state [ex_seed].
+
+(* reachable states do contain datasets *)
+Example C03_nonvacuous_coherent : length (dss ex_state) = 1.
+Proof. vm_compute. reflexivity. Qed.
+
+(* ds[0, :, [1, 2]] (advanced indices separated by a slice): accepted; NumPy puts the list axis
+   first, and the result carries (origin, units) of axis 2 then axis 1; ds[:, ::-2, 0] scales the
+   sampling by -2 *)
+Example C03_nonvacuous_getitem :
+  (exists s', getitem ex_state 0 [IInt 0; full; IList [1; 2]%Z] = Ok s' /\
+              o_shape (observe s' 1) = [2; 3] /\ o_origin (observe s' 1) = [3; 2]%Q /\
+              o_units (observe s' 1) = ["c"; "b"]%string /\ o_cls (observe s' 1) = D2) /\
+  (exists s', getitem ex_state 0 [full; ISlice None None (Some (-2)%Z); IInt 0] = Ok s' /\
+              o_shape (observe s' 1) = [2; 2] /\ map Qred (o_sampling (observe s' 1)) = [1 # 2; -1 # 2]%Q).
+Proof. split; eexists; vm_compute; repeat split; reflexivity. Qed.
+
+(* two list indices (NumPy merges them into one axis) are accepted as well *)
+Example C03_nonvacuous_two_lists :
+  exists s', getitem ex_state 0 [IList [0; 1]%Z; IList [1; 2]%Z] = Ok s' /\
+             o_shape (observe s' 1) = [2; 4] /\ o_origin (observe s' 1) = [1; 3]%Q.
+Proof. eexists. vm_compute. repeat split; reflexivity. Qed.
+
+(* the frame theorems have instances: copying pad returns a new dataset, in-place bin does not *)
+Example C03_nonvacuous_frame :
+  (exists s', step FR0 Z.div ex_state (OPad 0 (PadInt 1) false) = Ok s' /\ length (dss s') = 2) /\
+  (exists s', step FR0 Z.div ex_state (OBin 0 (FInt 2) AxNone false true) = Ok s' /\ length (dss s') = 1).
+Proof. split; eexists; vm_compute; split; reflexivity. Qed.
+
+(* both outcomes of clause 4 occur: success of both variants, and the same error in both *)
+Example C03_nonvacuous_inplace :
+  (exists s1 s2, step FR0 Z.div ex_state (OCrop 0 [(1, 0); (0, -1); (1, 3)]%Z AxNone true) = Ok s1 /\
+                 step FR0 Z.div ex_state (OCrop 0 [(1, 0); (0, -1); (1, 3)]%Z AxNone false) = Ok s2 /\
+                 o_shape (observe s1 0) = [1; 2; 2]) /\
+  step FR0 Z.div ex_state (OBin 0 (FInt 0) AxNone false true) = Err ValueErr /\
+  step FR0 Z.div ex_state (OBin 0 (FInt 0) AxNone false false) = Err ValueErr.
+Proof. split; [eexists; eexists; vm_compute; repeat split; reflexivity|split; vm_compute; reflexivity]. Qed.
